@@ -3,6 +3,7 @@ package props
 import (
 	"fmt"
 	"math/rand"
+	"net/url"
 	"os"
 	"path/filepath"
 	"reflect"
@@ -49,7 +50,7 @@ var c15Msgs = []string{"„ÄêÂøÖÂ°´„ÄëÂßìÂêç‰∏çËÉΩ‰∏∫Á©∫", "‚ÄúÂßìÂêç‚Äù‰∏çËÉΩ‰∏∫Á
 func init() {
 	core.Register(&core.Prop{
 		ID: "C15",
-		Rule: "(A) every message-capable rule (32 keys, 44 rule/value rows incl. CJK rule values) x 25 messages (CJK after other non-ASCII characters, containing a label word, containing %, ending in ; or a blank, ASCII, CJK, mixed, one rune, with = | and quoted comma) and no message x failing / passing value x carriers {struct tag, struct RM, Var, map, url}: the clause must show label(msg)+' '+msg verbatim instead of default wording; without message an explain:-labelled non-empty default text; " +
+		Rule: "(A) every message-capable rule (32 keys, 44 rule/value rows incl. CJK rule values) x 25 messages (CJK after other non-ASCII characters, containing a label word, containing %, ending in ; or a blank, ASCII, CJK, mixed, one rune, with = | and quoted comma) and no message x failing / passing value x carriers {struct tag, struct RM, Var, map, url}, plus required with every message on keys absent from a map / query and on initialised-but-empty and nil collections in struct fields: the clause must show label(msg)+' '+msg verbatim instead of default wording; without message an explain:-labelled non-empty default text; " +
 			"(B) GetOnlyExplainErr applied to real library errors of 1..8 clauses in every order pattern (k<=4 exhaustively, k<=8 random) over {Chinese-labelled, English default, English custom, unknown-rule (unlabelled), rule-writing error (unlabelled)} plus trailing group clauses. distinct = distinct error text fed to the extractor / distinct (rule,msg,carrier,fail) tuple; non-trivial = error with >=1 clause",
 		Shards: func(t core.Tier) int { return 8 },
 		Run:    runC15,
@@ -160,6 +161,87 @@ func runC15(c *core.Ctx) {
 					}
 				}
 			}
+		}
+	}
+
+	// ---- (A2) required with a message where "empty" is not a zero scalar: a key that is absent from the
+	// map / the query (among other keys, or alone), and collections that are initialised but empty
+	a2 := 0
+	for mi, msg := range c15Msgs {
+		text := "required|" + msg
+		type shape struct {
+			name string
+			run  func() drive.Out
+		}
+		shapes := []shape{
+			{"map-key-absent", func() drive.Out {
+				return drive.Call(func() error { return valid.Map(map[string]string{"other": "x"}, valid.RM{"k": text}) })
+			}},
+			{"map-empty-map", func() drive.Out {
+				return drive.Call(func() error { return valid.Map(map[string]string{}, valid.RM{"k": text}) })
+			}},
+			{"map-iface-key-absent", func() drive.Out {
+				return drive.Call(func() error { return valid.Map(map[string]interface{}{"other": 1}, valid.RM{"k": text}) })
+			}},
+			{"slice-map-key-absent", func() drive.Out {
+				return drive.Call(func() error { return valid.Map([]map[string]string{{"other": "x"}}, valid.RM{"k": text}) })
+			}},
+			{"url-key-absent", func() drive.Out {
+				return drive.Call(func() error { return valid.Url("http://h.example/p?other=x", valid.RM{"k": text}) })
+			}},
+			{"url-key-absent-encoded", func() drive.Out {
+				return drive.Call(func() error { return valid.Url(url.QueryEscape("http://h.example/p?other=x"), valid.RM{"k": text}) })
+			}},
+			{"url-key-empty", func() drive.Out {
+				return drive.Call(func() error { return valid.Url("http://h.example/p?k=&other=x", valid.RM{"k": text}) })
+			}},
+		}
+		for _, v := range []interface{}{[]string{}, make([]int, 0, 4), map[string]int{}, [0]int{}, []string(nil), map[string]int(nil), [](*int){}, []struct{ A int }{}, map[int]struct{ A int }{}} {
+			v := v
+			for _, cr := range []string{drive.StructRM, drive.StructTag, drive.StructCtx} {
+				cr := cr
+				rv := reflect.ValueOf(v)
+				nm := "nil"
+				if rv.Kind() == reflect.Array || !rv.IsNil() {
+					nm = "empty"
+				}
+				shapes = append(shapes, shape{cr + " " + nm + " " + rv.Type().String(), func() drive.Out {
+					o, _ := drive.Carry(cr, rv, text)
+					return o
+				}})
+			}
+		}
+		for _, sh := range shapes {
+			a2++
+			if !c.Mine(a2) {
+				continue
+			}
+			if strings.HasPrefix(sh.name, drive.StructTag) && !drive.TagSafe(text) {
+				continue
+			}
+			out := sh.run()
+			res.Eval()
+			res.DistinctEnum(1)
+			res.Count("message_clauses_checked")
+			res.Count("required_on_absent_or_empty_collection")
+			wit := map[string]string{"shape": sh.name, "rule": text, "library_returned": out.String()}
+			sg := "C15|message|required|"
+			if out.Panic != "" {
+				res.Violate(sg+"panic|"+strings.Fields(sh.name)[0], fmt.Sprintf("%s under %q panicked: %s", sh.name, text, out.Panic), wit)
+				continue
+			}
+			cls := clause.Parse(out.Err)
+			if out.Nil || len(cls) != 1 {
+				res.Violate(sg+"clause-count|"+strings.Fields(sh.name)[0], fmt.Sprintf("%s under %q returned %s (want exactly one clause)", sh.name, text, out), wit)
+				continue
+			}
+			if cl := cls[0]; cl.Label != clause.LabelFor(msg) || cl.Text != msg {
+				res.Violate(sg+"message-not-verbatim|"+strings.Fields(sh.name)[0], fmt.Sprintf("%s under %q returned %s; want explanation %q", sh.name, text, out, clause.LabelFor(msg)+" "+msg), wit)
+			}
+			if got, pan, _ := drive.CallStr(func() string { return valid.GetOnlyExplainErr(out.Err) }); (got != msg || pan != "") && !strings.Contains(msg, clause.LabelEn) && !strings.Contains(msg, clause.LabelZh) {
+				res.Violate(sg+"extractor|"+strings.Fields(sh.name)[0], fmt.Sprintf("%s under %q returned %s; GetOnlyExplainErr of it = %q (panic %q), want %q", sh.name, text, out, got, pan, msg), wit)
+			}
+			_ = mi
 		}
 	}
 
